@@ -15,6 +15,7 @@ import (
 const vYearNs = int64(365 * 24 * time.Hour)
 
 func verifC19Setup(kinds []int) (Keeper, sdk.Context, verifSched, math.Int) {
+	vFirstIds = []uint32{1, 4}
 	s := verifSchedule(len(kinds), kinds)
 	k := verifMinterKeeper()
 	supply := verif_int_range("supply", "1", "1e30")
@@ -37,7 +38,7 @@ func Verif_C19_zero_cases() {
 			cur = 1
 		}
 		st := verifFreshState(s)
-		st.SequenceId = uint32(cur + 1)
+		st.SequenceId = verifSeq(cur)
 		ctx = verifInstall(k, s, st, verif_time("T"))
 		inf, err := k.GetCurrentInflation(ctx)
 		verif_assert(err == nil && inf.IsZero(), "a no-minting period reports zero inflation")
@@ -85,7 +86,7 @@ func Verif_C19_linear() {
 	t2 := verif_time_unit("t2", 1000000, vT0, vT1)
 	verif_assume(!t1.Before(start) && t1.Before(t2) && t2.Before(end))
 	st := verifFreshState(s)
-	st.SequenceId = uint32(cur + 1)
+	st.SequenceId = verifSeq(cur)
 	ctx = verifInstall(k, s, st, t1)
 	inf, err := k.GetCurrentInflation(ctx)
 	verif_assert(err == nil, "inflation is defined inside the period")
@@ -128,7 +129,7 @@ func Verif_C19_exponential() {
 	}
 	s.assumeSteps(cur, T, K)
 	st := verifFreshState(s)
-	st.SequenceId = uint32(cur + 1)
+	st.SequenceId = verifSeq(cur)
 	ctx = verifInstall(k, s, st, T)
 	verif_knob("unroll", 8)
 	inf, err := k.GetCurrentInflation(ctx)
